@@ -17,12 +17,8 @@ class RangeOfCellIdentifierWithConditionTokenTranslator(AbstractTranslator):
             condition = LambdaTokenTranslator.translate(token.condition_lambda, excel, context)
         else:
             condition = context.set_sub_cell(
-                token.in_cell, f'lambda x: '
-                               f'self._parse_date_obj(x)==self._parse_date_obj({ExpressionTokenTranslator.translate(token.condition_expression, excel, context)}) '
-                               f'if self._parse_date_obj({ExpressionTokenTranslator.translate(token.condition_expression, excel, context)}) '
-                               f'else str(x).lower()==str({ExpressionTokenTranslator.translate(token.condition_expression, excel, context)}).lower() '
-                               f'if isinstance({ExpressionTokenTranslator.translate(token.condition_expression, excel, context)}, str) '
-                               f'else x=={ExpressionTokenTranslator.translate(token.condition_expression, excel, context)}'
+                token.in_cell,
+                f'lambda x: self._accepts(x, {ExpressionTokenTranslator.translate(token.condition_expression, excel, context)})'
             )
 
         return context.set_sub_cell(token.in_cell, f'{_range}, {condition}')
